@@ -114,13 +114,53 @@ func loadModule(name, dir, goos, goarch string, minPkgs int) *Module {
 			pkgs, overlay = pkgs2, next
 			ist.Rounds = round
 		}
+		// second stage: new struct types whose methods were expanded become local variables again
+		if len(overlay) > 0 && os.Getenv("VERIF_NOSROA") == "" {
+			for pass := 0; pass < 2; pass++ {
+				next := map[string][]byte{}
+				for k, v := range overlay {
+					next[k] = v
+				}
+				var trial inlineStats
+				if !sroaRound(pkgs, dir, next, &trial) {
+					break
+				}
+				cfg2 := *cfg
+				cfg2.Overlay = next
+				pkgs2, err := packages.Load(&cfg2, "./...")
+				firstErr := ""
+				if err != nil {
+					firstErr = err.Error()
+				} else {
+					packages.Visit(pkgs2, nil, func(p *packages.Package) {
+						for _, e := range p.Errors {
+							if firstErr == "" {
+								firstErr = e.Error()
+							}
+						}
+					})
+				}
+				if firstErr != "" || len(pkgs2) != len(pkgs) {
+					ist.Note += fmt.Sprintf("scalar replacement did not type-check (%s); dropped; ", firstErr)
+					if os.Getenv("VERIF_INLINE_DEBUG") != "" {
+						for k, v := range next {
+							os.WriteFile("/tmp/sroa_debug_"+strings.ReplaceAll(strings.TrimPrefix(k, dir+"/"), "/", "_"), v, 0o644)
+						}
+					}
+					break
+				}
+				pkgs, overlay = pkgs2, next
+				ist.Scalarised = append(ist.Scalarised, trial.Scalarised...)
+				ist.Note += trial.Note
+			}
+		}
 		if os.Getenv("VERIF_INLINE_DEBUG") == "2" {
 			for k, v := range overlay {
 				os.WriteFile("/tmp/inline_final_"+strings.ReplaceAll(strings.TrimPrefix(k, dir+"/"), "/", "_"), v, 0o644)
 			}
 		}
 		if ist.Sites > 0 || ist.Note != "" {
-			fmt.Printf("normalisation (%s): %d call site(s) of new helper(s) %v expanded in %d round(s); left as calls: %v %s\n", name, ist.Sites, ist.Helpers, ist.Rounds, ist.Left, ist.Note)
+			fmt.Printf("normalisation (%s): %d call site(s) of new helper(s) %v expanded in %d round(s); left as calls: %v; structs turned into locals: %v %s\n", name, ist.Sites, ist.Helpers, ist.Rounds, ist.Left, ist.Scalarised, ist.Note)
 		}
 	}
 	prog, spkgs := ssautil.Packages(pkgs, ssa.InstantiateGenerics)
